@@ -1944,6 +1944,14 @@ func planC02(tier string, seed int64) (*Plan, error) {
 	if thorough {
 		jobs = append(jobs, job("H_c02_emph", "n", 10, "alpha", "*a"), job("H_c02_emph", "n", 8, "alpha", "*_a"))
 	}
+	// code spans against a reference written from 6.1
+	nc := 8
+	if thorough {
+		nc = 10
+	}
+	for n := 2; n <= nc; n++ {
+		jobs = append(jobs, job("H_c02_codespan", "n", n))
+	}
 	// HTML block start/end conditions (CommonMark 4.6): see harness/h/c02ref.go
 	nhtml := 0
 	for ind := 0; ind <= 3; ind++ {
@@ -2010,6 +2018,7 @@ func planC02(tier string, seed int64) (*Plan, error) {
 		"tabs":       fmt.Sprintf("%d cases: chains of 1-3 container markers (block quote, bullet item) followed by every run of <= %d spaces/tabs and two symbolic letters; expected structure (paragraph, or indented code with its leading columns) from column arithmetic in the harness", ntabs, wsMax),
 		"refdef":     fmt.Sprintf("%d link reference definition boundary shapes (4.7): whitespace between colon and destination {space, line ending, line ending + 2 spaces, none} x destination {bare, <...>} x title {none; \" ' ( delimited, on one or two lines, separated by a space / a line ending / a line ending and a space} x trailer {nothing, a space, more text}, optionally paragraph text directly behind the definition (indented 0, 1, 3, 4 spaces or a tab), followed by a shortcut reference; label, destination, title and trailer letters symbolic; expected: definition with title / definition without title plus a paragraph / no definition, from 4.7", nref),
 		"emphasis":   fmt.Sprintf("one-line paragraphs of length 1..%d with every byte symbolic over {*, _, space, '.', ',', '!', a-z} (no leading/trailing space, some non-delimiter character, not starting with a bullet marker), and of length %d over {*,a}, %d over {*,_,a,space}, %d over {_,a,.} (thorough adds 10 over {*,a}, 8 over {*,_,a}); expected HTML from a reference implementation, in the harness, of the specification's delimiter-run classification and 'process emphasis' procedure", ne, ne+2, ne+1, ne+2),
+		"code spans": fmt.Sprintf("one paragraph of length 2..%d with every byte symbolic over {backtick, space, LF, a-z} (no blank line, no line starting/ending with a space, no line starting with three backticks); expected HTML from a reference implementation of 6.1 in the harness", nc),
 		"html":       fmt.Sprintf("%d HTML block shapes (4.6): start conditions 1-7 (type 1: every pair of opening and closing name from pre/script/style/textarea; type 6: 12 block tag names, opening and closing form; type 7: an unknown tag alone on its line), 0-3 columns of indentation, end condition on the first line or on a later line, text behind the end condition, a blank line for types 6-7; the letter case of the first, middle and last tag-name letter is symbolic, the other letters lower or upper case; content letters symbolic", nhtml),
 		"spec":       fmt.Sprintf("%d examples of _test/spec.json (expected HTML from the file): final newline removed; an unrelated paragraph / ATX heading / thematic break with symbolic letters placed before; and, for the %d examples whose expected HTML ends in a closed block (p, h1-6, hr, blockquote, ul, ol), an extra final newline and the same unrelated block placed after; %d examples end in a code or HTML block and are skipped for the 'after' rewrites by that stated rule", nspec, nspec-nskip, nskip),
 		"comparison": "byte equality after deleting newlines directly behind '>' or directly in front of '<' and trailing newlines (a subset of what the specification's own normaliser ignores)",
